@@ -260,6 +260,8 @@ func (ex *Exec) applyContract(st *State, ct *Contract, f *types.Func, recv Val, 
 		postEnv.ok = st.ok
 	}
 	// results
+	ex.nullableResults = true
+	defer func() { ex.nullableResults = false }()
 	var result Val
 	var results []Val
 	if rp, ok := ct.Opts["result"]; ok {
@@ -343,6 +345,11 @@ func (ex *Exec) applyContract(st *State, ct *Contract, f *types.Func, recv Val, 
 	}
 	// definitional equalities for symbols created by this call
 	result = ex.eliminateDefs(st, pcMark, freshMark, result)
+	if tv, ok := result.(*TupleV); ok {
+		st.recordCall(ct.Name, tv.Vs)
+	} else {
+		st.recordCall(ct.Name, []Val{result})
+	}
 	if ct.Trusted {
 		ex.note("contract of %s is assumed, its body is not verified", ct.Key)
 	}
